@@ -1,5 +1,6 @@
 import ScVerif.C11.TableObligation
 import ScVerif.C11.LocksetLemmas
+import ScVerif.C11.ExecNeed
 import ScVerif.Generated.C11Facts
 /-!
 C11 — the one obligation that depends on the table regenerated from /repo's sources on every run
@@ -28,6 +29,17 @@ resources store and hand out by pointer) is frozen: the library has no write int
 outside construction. -/
 theorem C11_published_frozen : ∀ r ∈ accesses, bareReader r → frozenIn accesses r.field :=
   fun _ hr hb => frozen_of_bareReader C11_lock_discipline hr hb
+
+table_obligation in
+/-- **The extracted table ⇒ no data race in the modelled executions**: in every execution of the
+semantics of `Exec.lean` (mutexes, channel closes, publication / join of the object, any creator, any
+assignment of roles to goroutines) in which the goroutines do what the table extracted on this run says
+of them, any two conflicting accesses by different goroutines are ordered by happens-before. -/
+theorem C11_table_executions_race_free : NoRace accesses :=
+  fun _ _ _ _ hv hc _ _ _ _ _ _ hi hj hne hcf =>
+    (Nat.lt_trichotomy _ _).elim (fun h => Or.inl (discipline_orders C11_lock_discipline hv hc h hi hj hne hcf))
+      fun h => h.elim (fun h => by subst h; rw [hi] at hj; cases hj; exact absurd rfl hne)
+        fun h => Or.inr (discipline_orders C11_lock_discipline hv hc h hj hi (Ne.symm hne) ⟨hcf.1.symm, hcf.2.symm⟩)
 
 -- …and there are such rows
 table_obligation in
